@@ -43,3 +43,83 @@ Proof.
   intros H. apply calls_never_exhaust. rewrite Forall_forall in *. intros tr Hin.
   apply H. eapply in_firstn; eauto.
 Qed.
+
+(* ---- occupancy accounting and the converse: a leak is fatal after finitely many calls ---- *)
+
+Fixpoint gets (t : nat) (tr : list ev) : nat :=
+  match tr with
+  | [] => 0
+  | Get u :: r => (if Nat.eqb u t then 1 else 0) + gets t r
+  | Ret _ :: r => gets t r
+  end.
+Fixpoint rets (t : nat) (tr : list ev) : nat :=
+  match tr with
+  | [] => 0
+  | Ret u :: r => (if Nat.eqb u t then 1 else 0) + rets t r
+  | Get _ :: r => rets t r
+  end.
+
+Lemma pool_set_nth_length (l : pool) i x : length (set_nth l i x) = length l.
+Proof. revert i; induction l as [|h l IH]; intros [|i]; cbn; auto. Qed.
+Lemma pool_nth_set_eq (l : pool) i x : i < length l -> nth i (set_nth l i x) 0 = x.
+Proof. revert i; induction l as [|h l IH]; intros [|i] H; cbn in *; try lia; auto. apply IH; lia. Qed.
+Lemma pool_nth_set_neq (l : pool) i j x : i <> j -> nth j (set_nth l i x) 0 = nth j l 0.
+Proof. revert i j; induction l as [|h l IH]; intros [|i] [|j] H; cbn; auto; try congruence. Qed.
+
+(* occupancy of pool t after any trace that does not panic = initial occupancy - borrowed + returned,
+   and the number of pools never changes *)
+Theorem occupancy_accounting t : forall tr p p',
+  t < length p -> run p tr = Some p' ->
+  nth t p' 0 + gets t tr = nth t p 0 + rets t tr /\ length p' = length p.
+Proof.
+  induction tr as [|e tr IH]; intros p p' Ht H; cbn [run gets rets] in *.
+  - inversion H; subst. split; reflexivity.
+  - destruct e as [u|u].
+    + destruct (nth u p 0) as [|k] eqn:E; [discriminate|].
+      destruct (IH (set_nth p u k) p') as [A B]; [rewrite pool_set_nth_length; exact Ht|exact H|].
+      rewrite pool_set_nth_length in B. split; [|exact B].
+      destruct (Nat.eqb_spec u t) as [->|N].
+      * rewrite pool_nth_set_eq in A by exact Ht. lia.
+      * rewrite pool_nth_set_neq in A by exact N. lia.
+    + destruct (IH (set_nth p u (S (nth u p 0))) p') as [A B]; [rewrite pool_set_nth_length; exact Ht|exact H|].
+      rewrite pool_set_nth_length in B. split; [|exact B].
+      destruct (Nat.eqb_spec u t) as [->|N].
+      * rewrite pool_nth_set_eq in A by exact Ht. lia.
+      * rewrite pool_nth_set_neq in A by exact N. lia.
+Qed.
+
+Lemma gets_app t a b : gets t (a ++ b) = gets t a + gets t b.
+Proof. induction a as [|[u|u] a IH]; cbn [app gets]; lia. Qed.
+Lemma rets_app t a b : rets t (a ++ b) = rets t a + rets t b.
+Proof. induction a as [|[u|u] a IH]; cbn [app rets]; lia. Qed.
+Lemma gets_repeat t tr n : gets t (concat (repeat tr n)) = n * gets t tr.
+Proof. induction n as [|n IH]; cbn [repeat concat]; [reflexivity|]. rewrite gets_app, IH. lia. Qed.
+Lemma rets_repeat t tr n : rets t (concat (repeat tr n)) = n * rets t tr.
+Proof. induction n as [|n IH]; cbn [repeat concat]; [reflexivity|]. rewrite rets_app, IH. lia. Qed.
+
+(* a balanced call borrows and returns the same number of buffers of every pool *)
+Theorem call_ok_balanced caps tr t : t < length caps -> call_ok caps tr = true -> gets t tr = rets t tr.
+Proof.
+  intros Ht H. apply call_ok_spec in H. destruct (occupancy_accounting t tr caps caps Ht H) as [A _]. lia.
+Qed.
+
+(* the converse of "no exhaustion ever": a call that keeps even ONE buffer of pool t (on whatever
+   branch) cannot be repeated more than cap(t) times — the (cap+1)-th repetition at the latest panics
+   with "Out of instances" *)
+Theorem leak_exhausts caps tr t n :
+  t < length caps -> gets t tr = S (rets t tr) -> nth t caps 0 < n ->
+  run caps (concat (repeat tr n)) = None.
+Proof.
+  intros Ht Hleak Hn. destruct (run caps (concat (repeat tr n))) as [p'|] eqn:E; [|reflexivity]. exfalso.
+  destruct (occupancy_accounting t _ caps p' Ht E) as [A _].
+  rewrite gets_repeat, rets_repeat, Hleak, Nat.mul_succ_r in A. lia.
+Qed.
+
+(* ... and until then nothing is visible: the leak only lowers the occupancy by one per call *)
+Theorem leak_is_silent_until_then caps tr t n p' :
+  t < length caps -> gets t tr = S (rets t tr) -> run caps (concat (repeat tr n)) = Some p' ->
+  nth t p' 0 + n = nth t caps 0.
+Proof.
+  intros Ht Hleak E. destruct (occupancy_accounting t _ caps p' Ht E) as [A _].
+  rewrite gets_repeat, rets_repeat, Hleak, Nat.mul_succ_r in A. lia.
+Qed.
